@@ -581,6 +581,24 @@ def _vstack(seq):
     return NumArr(rows)
 
 
+def _np_sort(a, axis=-1, kind=None, order=None):
+    """np.sort: a sorted copy; along the last axis by default, along the given one, or of the flattened array for axis=None"""
+    if kind is not None or order is not None:
+        raise Undecided("np.sort with kind / order")
+    a = a if isinstance(a, NumArr) else NumArr(list(a))
+    if axis is None:
+        return NumArr(sorted(a.ravel().data))
+    if isinstance(axis, bool) or not isinstance(axis, int) or not -a.ndim <= axis < a.ndim:
+        raise ValueError("axis %r is out of bounds for array of dimension %d" % (axis, a.ndim))
+    axis %= a.ndim
+    if a.ndim == 1:
+        return NumArr(sorted(a.data), a.fixed)
+    if axis == 1:
+        return NumArr([sorted(r.data) for r in a.data], a.fixed)
+    cols = [sorted(r.data[j] for r in a.data) for j in range(a.shape[1])]
+    return NumArr([[cols[j][i] for j in range(a.shape[1])] for i in range(a.shape[0])], a.fixed)
+
+
 def _np_arange(*a, dtype=None):
     """np.arange(stop) / (start, stop[, step]): integers give an integer array, any real argument a real one"""
     if not 1 <= len(a) <= 3 or any(isinstance(x, bool) or not isinstance(x, (int, float)) for x in a):
@@ -739,10 +757,18 @@ def _math_summaries():
             raise Undecided("integer remainder by zero")
         return x % y
     un = lambda f: (lambda x, *a, **k: emap(f, x))
+
+    def uf2(f):
+        """a binary ufunc: element-wise with broadcasting; out= receives the result in place"""
+        def g(a, b, out=None):
+            aa = a if isinstance(a, NumArr) or not _is_seq(a) else NumArr(list(a))
+            bb = b if isinstance(b, NumArr) or not _is_seq(b) else NumArr(list(b))
+            return write_into(out, emap(f, aa, bb))
+        return g
     out = {"np.log": un(log), "np.exp": un(exp), "np.sqrt": un(sqrt), "np.log1p": un(lambda v: log(1 + v)), "np.expm1": un(lambda v: exp(v) - 1),
            "np.reciprocal": un(recip), "np.square": un(lambda v: v * v), "np.negative": un(lambda v: -v), "np.float_power": lambda a, b: emap(lambda x, y: float(x) ** y, a, b),
-           "np.power": lambda a, b: emap(power, a, b), "np.divide": lambda a, b: emap(lambda x, y: x / y, a, b), "np.true_divide": lambda a, b: emap(lambda x, y: x / y, a, b),
-           "np.subtract": lambda a, b: emap(lambda x, y: x - y, a, b),
+           "np.power": uf2(power), "np.divide": uf2(_div), "np.true_divide": uf2(_div),
+           "np.subtract": uf2(lambda x, y: x - y), "np.add": uf2(lambda x, y: x + y), "np.multiply": uf2(lambda x, y: x * y),
            "np.mod": lambda a, b: emap(modulo, a, b), "np.remainder": lambda a, b: emap(modulo, a, b),
            "np.floor": un(lambda v: float(math.floor(v))), "np.ceil": un(lambda v: float(math.ceil(v))), "np.round": un(lambda v: float(round(v))),
            "np.rint": un(lambda v: float(round(v))), "np.isnan": un(lambda v: v != v), "np.sign": un(lambda v: (v > 0) - (v < 0)),
@@ -874,7 +900,7 @@ def num_summaries():
         "np.count_nonzero": lambda a, axis=None: (sum(1 for b in (_arrify(a).ravel() if isinstance(_arrify(a), NumArr) else [a]) if b) if axis is None else _raise_und("np.count_nonzero along an axis")),
         "np.logical_and": pair(lambda x, y: bool(x) and bool(y)), "np.logical_or": pair(lambda x, y: bool(x) or bool(y)), "np.logical_not": elementwise(lambda x: not x),
         "np.digitize": only1d(lambda x, bins, right=False: NumArr([(bisect.bisect_left if right else bisect.bisect_right)(list(bins), v) for v in x]), "np.digitize"),
-        "np.unique": only1d(lambda a: NumArr(sorted(set(a))), "np.unique"), "np.sort": only1d(lambda a: NumArr(sorted(a)), "np.sort"),
+        "np.unique": only1d(lambda a: NumArr(sorted(set(a))), "np.unique"), "np.sort": _np_sort,
         "np.take": _np_take, "np.ndindex": _np_ndindex,
         "np.isposinf": elementwise(lambda x: x == float("inf")), "np.isneginf": elementwise(lambda x: x == float("-inf")),
         "np.concatenate": only1d(lambda seq, axis=0: NumArr([x for s in seq for x in (s if _is_seq(s) else [s])]) if axis in (0, None) else _raise_und("np.concatenate along axis %r" % (axis,)), "np.concatenate"),
@@ -912,7 +938,5 @@ def num_summaries():
         "np.amin": lambda a: NumArr(a).min(), "np.amax": lambda a: NumArr(a).max(),
         "np.float64": float, "np.int64": int, "np.isinf": elementwise(lambda x: x in (float("inf"), float("-inf"))),
         "np.isfinite": elementwise(lambda x: x not in (float("inf"), float("-inf")) and x == x),
-        "np.add": lambda a, b: (a if isinstance(a, NumArr) else NumArr(a)) + b,
-        "np.multiply": lambda a, b: (a if isinstance(a, NumArr) else NumArr(a)) * b,
         "max": lambda *a: max(a) if len(a) > 1 else max(a[0]), "min": lambda *a: min(a) if len(a) > 1 else min(a[0]),
     }
